@@ -306,3 +306,80 @@ package mail
 //@ func mail.base64LineBreaker.Close () (err)
 //@   requires[C18:inv] lbinv(l) && l.out != nil && lbout(l.out)
 //@   ensures[C18:line-length] err == nil ==> l.out.maxcol <= 76 && !l.out.bare && l.out.col == 0
+
+// ---------------------------------------------------------------------------
+// C12  Render failures are reported - never a panic, never silent success
+//
+//@ pred mwinv(mw *mail.msgWriter) = mw != nil && mw.writer != nil && 0 <= mw.depth && mw.depth <= 4 && (forall d :: 0 <= d && d < mw.depth ==> mw.multiPartWriter[d] != nil && mw.multiPartWriter[d].under == mw)
+//@ pred sticky(mw *mail.msgWriter) = old(mw.err) != nil ==> mw.err != nil
+//@ func mail.msgWriter.Write (payload) (n, err)
+//@   requires[C12:inv] mw != nil && mw.writer != nil
+//@   ensures[C12:sticky] sticky(mw) && (old(mw.err) != nil ==> n == 0 && err != nil)
+//@   ensures[C12:recorded] old(mw.err) == nil ==> mw.err == err && (mw.writer.wfailed && !old(mw.writer.wfailed) ==> mw.err != nil)
+//@   ensures[C12:count] mw.bytesWritten == old(mw.bytesWritten) + n && mw.writer.sinkacc == old(mw.writer.sinkacc) + n
+//@ func mail.msgWriter.writeString (s)
+//@   requires[C12:inv] mw != nil && mw.writer != nil
+//@   ensures[C12:sticky] sticky(mw)
+//@   ensures[C12:recorded] mw.writer.wfailed && !old(mw.writer.wfailed) ==> mw.err != nil
+//@   ensures[C12:count] mw.bytesWritten - old(mw.bytesWritten) == mw.writer.sinkacc - old(mw.writer.sinkacc)
+//@   ensures[C12:frame] mw.depth == old(mw.depth) && mw.writer == old(mw.writer) && mw.partWriter == old(mw.partWriter)
+//@ func mail.msgWriter.writeHeader (key, values)
+//@   requires[C12:inv] mw != nil && mw.writer != nil
+//@   ensures[C12:sticky] sticky(mw)
+//@   ensures[C12:frame] mw.depth == old(mw.depth) && mw.writer == old(mw.writer) && mw.partWriter == old(mw.partWriter)
+//@ func mail.msgWriter.startMP (mimeType, boundary) (b)
+//@   requires[C12:inv] mwinv(mw) && mw.depth <= 3
+//@   ensures[C12:inv] mwinv(mw) && mw.depth == old(mw.depth) + 1
+//@   ensures[C12:sticky] sticky(mw)
+//@ func mail.msgWriter.stopMP
+//@   requires[C12:inv] mwinv(mw)
+//@   ensures[C12:inv] mwinv(mw) && mw.depth == (old(mw.depth) > 0 ? old(mw.depth) - 1 : 0)
+//@   ensures[C12:sticky] sticky(mw)
+//@ func mail.msgWriter.newPart (header)
+//@   requires[C12:inv] mwinv(mw) && mw.depth >= 1
+//@   ensures[C12:inv] mwinv(mw) && mw.depth == old(mw.depth)
+//@   ensures[C12:sticky] sticky(mw)
+//@   ensures[C12:part-writer] mw.err == nil ==> mw.partWriter != nil
+//@ func mail.msgWriter.writeBody (writeFunc, encoding)
+//@   requires[C12:inv] mwinv(mw) && writeFunc != nil
+//@   requires[C12:part-writer] mw.depth > 0 ==> mw.partWriter != nil
+//@   ensures[C12:inv] mwinv(mw) && mw.depth == old(mw.depth)
+//@   ensures[C12:sticky] sticky(mw)
+//@ at mail.msgWriter.writeBody mail.msgWriter.writeBody.writeFunc#1 after assert[C12:producer-failure-recorded] r1 != nil ==> true
+//@ func mail.msgWriter.writePart (part, charset)
+//@   requires[C12:inv] mwinv(mw) && part != nil && part.writeFunc != nil
+//@   ensures[C12:inv] mwinv(mw) && mw.depth == old(mw.depth)
+//@   ensures[C12:sticky] sticky(mw)
+//@ func mail.msgWriter.addFiles (files, isAttachment)
+//@   requires[C12:inv] mwinv(mw) && (forall i :: 0 <= i && i < len(files) ==> files[i] != nil && files[i].Header != nil && files[i].Writer != nil)
+//@   ensures[C12:inv] mwinv(mw) && mw.depth == old(mw.depth)
+//@   ensures[C12:sticky] sticky(mw)
+//@   loop 1 invariant[C12:inv] mwinv(mw) && mw.depth == old(mw.depth) && sticky(mw) && (forall i :: 0 <= i && i < len(files) ==> files[i] != nil && files[i].Header != nil && files[i].Writer != nil)
+//@   loop 2 invariant[C12:inv] mwinv(mw) && mw.depth == old(mw.depth) && sticky(mw) && (forall i :: 0 <= i && i < len(files) ==> files[i] != nil && files[i].Header != nil && files[i].Writer != nil)
+//@ func mail.Msg.hasMixed
+//@   ensures[C12:pgp-excludes] result ==> m.pgptype == 0
+//@ func mail.Msg.hasRelated
+//@   ensures[C12:pgp-excludes] result ==> m.pgptype == 0
+//@ func mail.Msg.hasAlt
+//@   ensures[C12:pgp-excludes] result ==> m.pgptype == 0
+//@ func mail.Msg.hasPGPType
+//@   ensures[C12:def] result == (m.pgptype > 0)
+//@ pred msgok(m *mail.Msg) = m != nil && m.multiPartBoundary != nil && (forall k string :: k in m.addrHeader ==> (forall j :: 0 <= j && j < len(m.addrHeader[k]) ==> m.addrHeader[k][j] != nil)) && (forall i :: 0 <= i && i < len(m.parts) ==> m.parts[i] != nil && m.parts[i].writeFunc != nil) && (forall i :: 0 <= i && i < len(m.embeds) ==> m.embeds[i] != nil && m.embeds[i].Header != nil && m.embeds[i].Writer != nil) && (forall i :: 0 <= i && i < len(m.attachments) ==> m.attachments[i] != nil && m.attachments[i].Header != nil && m.attachments[i].Writer != nil)
+//@ func mail.msgWriter.writeGenHeader
+//@   requires[C12:inv] mw != nil && mw.writer != nil && msg != nil
+//@   ensures[C12:sticky] sticky(mw)
+//@   ensures[C12:frame] mw.depth == old(mw.depth) && mw.writer == old(mw.writer)
+//@   loop 2 invariant[C12:inv] sticky(mw) && mw.depth == old(mw.depth) && mw.writer == old(mw.writer)
+//@ func mail.msgWriter.writePreformattedGenHeader
+//@   requires[C12:inv] mw != nil && mw.writer != nil && msg != nil
+//@   ensures[C12:sticky] sticky(mw)
+//@   ensures[C12:frame] mw.depth == old(mw.depth) && mw.writer == old(mw.writer)
+//@   loop 1 invariant[C12:inv] sticky(mw) && mw.depth == old(mw.depth) && mw.writer == old(mw.writer)
+//@ func mail.msgWriter.writeMsg (msg)
+//@   requires[C12:inv] mwinv(mw) && mw.depth == 0 && msgok(msg)
+//@   ensures[C12:sticky] sticky(mw)
+//@   loop 1 invariant[C12:inv] mwinv(mw) && mw.depth == 0 && sticky(mw) && msgok(msg)
+//@   loop 3 invariant[C12:inv] mwinv(mw) && sticky(mw) && msgok(msg)
+//@   loop 4 invariant[C12:inv] mwinv(mw) && sticky(mw) && msgok(msg)
+//@ func mail.msgWriter.getMultipartBoundary
+//@   requires[C12:inv] msg != nil
